@@ -25,6 +25,7 @@ import (
 	"github.com/ajitpratap0/GoSQLX/pkg/sql/ast"
 
 	"verif/internal/core"
+	"verif/internal/gram"
 	"verif/internal/entry"
 	"verif/internal/ops"
 	"verif/internal/project"
@@ -84,6 +85,9 @@ func main() {
 	run.AddTLC(lm.Stat("statement loop in strict and recovery mode: StrictVerdict, NoLoss, Progress, Termination"))
 	pm := core.MustTLC(core.TLCOpts{Spec: "Pipeline", Cfg: pcfg, Timeout: 5 * time.Minute})
 	run.AddTLC(pm.Stat("entry points as stage pipelines: EntryAgreement, FamilyOfCode, Totality"))
+	// the pools also hold a sample of Select.tla's statement forms
+	run.Extra["model_statements_in_pools"] = gram.ExportForms(run)
+	defer os.Remove(os.Getenv("VERIF_EXTRA_STMTS"))
 	good, bad = stmts.Pools()
 	if len(good) < 10 || len(bad) < 30 {
 		core.Fatalf("statement pools too small")
